@@ -147,9 +147,12 @@ def thread_input(rng, flen):
         lines.append("IFACE %d mtu=%d mac=%s flags=%d iftype=%d speed=%d wifi=%d rssi=%d rate=%d mode=%d" % (
             t, c["mtu"], c["mac"].hex(), c["flags"], c["iftype"], c["speed"], c["wifi"], c.get("rssi", 0), c.get("rate", 0), c.get("mode", 0)))
     for t in (0, 1):
-        for fr in hs[t]:
-            if len(fr) >= 33 and fr[17] == W.OP_QLT and fr[32] == 0x13:
-                continue
+        own = cfgs[t]["mac"]
+        mp = G.rand_mac(rng)
+        extra = [W.discover(mp, 1, 1, [], tos=0)] + [W.qlt(own, mp, 5 + k, typ, off) for k, (typ, off) in
+                                                       enumerate([(0x13, 0), (0x11, 0), (0x13, 4), (0x0E, 0), (0x13, 0)])]
+        pos = rng.randrange(len(hs[t]) + 1)
+        for fr in hs[t][:pos] + extra + hs[t][pos:]:
             lines.append("H%d %s" % (t, fr[:cfgs[t]["mtu"]].hex()))
     return "\n".join(lines) + "\n"
 
